@@ -307,3 +307,27 @@ func (p *Prog) nodeHasCall(n ast.Node, pred func(c *ast.CallExpr) bool) bool {
 	}
 	return false
 }
+
+// DominatingFactList: like DominatingFacts but keeps one fact per dominating
+// edge (re-used variables such as err yield several facts with the same text).
+func (p *Prog) DominatingFactList(f *Func, n ast.Node) []Fact {
+	g := p.CFG(f)
+	loc, ok := g.Locate(n)
+	if !ok {
+		return nil
+	}
+	var out []Fact
+	for _, e := range g.DominatingEdges(loc) {
+		out = append(out, p.FactsOfCond(e.Cond, e.Val)...)
+	}
+	return out
+}
+
+func factListHas(fs []Fact, pred func(Fact) bool) bool {
+	for _, f := range fs {
+		if pred(f) {
+			return true
+		}
+	}
+	return false
+}
